@@ -486,19 +486,44 @@ func c03Header(c *Ctx, w *prove.World) {
 		key := "Header.Unmarshal " + sp.field
 		if sp.kind == "nested" {
 			// read through the interface: the window handed to SecurityFeatures.Unmarshal
-			okN := false
+			okN, seen, unread := false, false, ""
 			for _, b := range u.Blocks {
 				for _, in := range b.Instrs {
 					call, isC := in.(*ssa.Call)
 					if !isC || !call.Common().IsInvoke() || call.Common().Method.Name() != "Unmarshal" {
 						continue
 					}
-					sl, isS := call.Common().Args[0].(*ssa.Slice)
-					if !isS {
+					seen = true
+					cx := fi.CtxBefore(call)
+					// absolute window of the argument: follow the re-slice chain down to the input parameter
+					lo, hi, haveHi := lin.K(0), lin.K(0), false
+					v := call.Common().Args[0]
+					for d := 0; d < 6; d++ {
+						sl, isS := v.(*ssa.Slice)
+						if !isS {
+							break
+						}
+						hadHi := haveHi
+						if !haveHi && sl.High != nil {
+							hi, haveHi = cx.Lin(sl.High), true
+						}
+						if sl.Low != nil {
+							l := cx.Lin(sl.Low)
+							lo = lo.Add(l)
+							if hadHi {
+								hi = hi.Add(l)
+							}
+						}
+						v = sl.X
+					}
+					if _, isP := v.(*ssa.Parameter); !isP {
+						unread = "the window handed to SecurityFeatures.Unmarshal is not a re-slice of the input parameter"
 						continue
 					}
-					cx := fi.CtxBefore(call)
-					lo, hi := cx.Lin(sl.Low), cx.Lin(sl.High)
+					if !haveHi {
+						unread = "the window handed to SecurityFeatures.Unmarshal has no upper bound in this function"
+						continue
+					}
 					if cx.Prove(lin.GE(lo, lin.K(int64(sp.off)))) && cx.Prove(lin.LE(lo, lin.K(int64(sp.off)))) &&
 						cx.Prove(lin.GE(hi, lin.K(int64(sp.off+sp.width)))) && cx.Prove(lin.LE(hi, lin.K(int64(sp.off+sp.width)))) {
 						okN = true
@@ -507,6 +532,11 @@ func c03Header(c *Ctx, w *prove.World) {
 			}
 			if okN {
 				r.OK("header", key, p.Rel(u.Pos()), fmt.Sprintf("bytes %d..%d handed to SecurityFeatures.Unmarshal", sp.off, sp.off+sp.width))
+			} else if unread != "" || (!seen && c03HandsOn(u)) {
+				if unread == "" {
+					unread = "no Unmarshal call through the SecurityFeatures interface in this function, which hands its input or receiver to a helper that is not followed"
+				}
+				c.NotDecided("header", key, p.Rel(u.Pos()), unread)
 			} else {
 				r.Fail("header", key, p.Rel(u.Pos()), fmt.Sprintf("SecurityFeatures is not decoded from bytes %d..%d", sp.off, sp.off+sp.width))
 			}
@@ -1131,4 +1161,35 @@ func returnsFresh(fn *ssa.Function) bool {
 		}
 	}
 	return true
+}
+
+// c03HandsOn: fn passes its receiver or a byte slice to an in-module function
+// other than a method invoked through an interface (the decode may continue there).
+func c03HandsOn(fn *ssa.Function) bool {
+	for _, b := range fn.Blocks {
+		for _, in := range b.Instrs {
+			ci, ok := in.(ssa.CallInstruction)
+			if !ok {
+				continue
+			}
+			cc := ci.Common()
+			callee := cc.StaticCallee()
+			if callee == nil || callee.Pkg == nil || !strings.HasPrefix(callee.Pkg.Pkg.Path(), "github.com/TheManticoreProject/") {
+				if _, isMC := cc.Value.(*ssa.MakeClosure); !isMC {
+					continue
+				}
+			}
+			for _, a := range cc.Args {
+				if len(fn.Params) > 0 && a == ssa.Value(fn.Params[0]) {
+					return true
+				}
+				if sl, isS := a.Type().Underlying().(*types.Slice); isS {
+					if bt, isB := sl.Elem().Underlying().(*types.Basic); isB && bt.Kind() == types.Uint8 {
+						return true
+					}
+				}
+			}
+		}
+	}
+	return false
 }
